@@ -1,6 +1,7 @@
 STREAM = dict(
     name="htlc", quick=32, thorough=1500, check_module="Genesis.Htlc", check_fn="check_htlc",
     codes={1: "htlc-export-does-not-validate", 2: "htlc-import-panics", 3: "htlc-second-export-differs",
-           4: "htlc-query-differs-after-import", 5: "htlc-expiration-queue-not-rebuilt"},
+           4: "htlc-query-differs-after-import", 5: "htlc-expiration-queue-not-rebuilt",
+           7: "htlc-import-panics.parameters-changed-under-stored-supplies-or-open-transfers"},
     nontrivial="at least one open contract (time-bound) and at least one closed one (its escrow emptied)",
 )
